@@ -181,6 +181,17 @@ CLAIMED = {
    note='PARTIAL: socket errors, timeouts and reconnection are runtime behaviour observed through the relay (server->client cuts and silences only; no client->server cuts, no '
         'kernel resets); the theorems carry the matching logic.  Trusted: Coq kernel; extraction + driver; 1 s client timeout on localhost.',
    technique='Coq proof (induction over the issued operations) + fault-injection against the live client compared with the extracted models', design='6 C13'),
+ 'C14': dict(
+   text='Coq theorems (Properties/C14.v): requests carried over Forward Open connections are answered with exactly the CIP replies, and leave exactly the tags, of the same requests '
+        'issued unconnected (the array model of C03-C05), whatever opens / closes, connection ids and sequence counts are interleaved; every connected reply echoes its request\'s '
+        'sequence count, and that count survives the wire for every value 0..65535; Forward Close removes exactly that connection and touches no tag; the reference codec the raw '
+        'client is assembled from (Connection Manager services, frames with connection_ID / connection_data items) decodes only what it encodes.  Observation: pylogix 1.1.6 against '
+        'a live simulator (register, Forward Open, read / write / large and exact-fit array reads / multi-reads / out-of-range / unknown tags against a plain array model, with the '
+        'connection sequence counter carried across 0x8000 and the 16-bit wrap) and a raw client built from the extracted reference encoder/decoder (Register, Forward Open, '
+        'connected reads/writes at boundary sequence counts, Forward Close, Unregister); finally each client re-reads what the other wrote.',
+   note='PARTIAL by nature: interoperation of two programs over TCP is observed, not proved; the theorems carry the connected-session logic and the codec.  Trusted: Coq kernel; '
+        'extraction + driver; pylogix as installed; its status strings are taken as the documented statuses; UDT / STRING tags and pylogix tag-list services are not exercised.',
+   technique='Coq proof (induction over connected histories; verified codec fields) + differential runs of two independent clients against the live simulator', design='6 C14'),
 }
 PENDING = {}
 ALL = ['C%02d' % i for i in range(1, 21)]
